@@ -38,6 +38,10 @@ class DFSTraversePatch(Patch):
             patch = self.patch_value(raw, origin)
             return raw if patch is None else patch
 
+        if not isinstance(raw, dict):
+            # a null (or any other scalar yaml can produce) as a list element is a leaf no patch touches
+            return raw
+
         interpreted = {}
 
         excluded_keys = raw.get("exclude", []) + ["exclude"]
